@@ -28,7 +28,7 @@ THEOREMS = [
     "Cog.Sem.C11_counterexample_explicit_null_array_of_structs",
     "Cog.Sem.C11_counterexample_explicit_null_map_of_structs",
     "Cog.Sem.C11_counterexample_explicit_null_union",
-    "Cog.Sem.C11_nested_map_in_fragment",
+    "Cog.Sem.C11_nested_map_in_fragment", "Cog.Sem.C11_pinned_member_exact",
     "Cog.Sem.C11_counterexample_optional_default_emitted",
     "Cog.Sem.C11_counterexample_optional_constant_emitted",
     "Cog.Sem.C11_counterexample_empty_optional_list_differs_from_go",
@@ -133,7 +133,7 @@ def main():
     if hb is None:
         c.finish("lake build", "n/a")
     quick = c.tier == "quick"
-    kw = dict(n=24, docs=30) if quick else dict(n=360, docs=40)
+    kw = dict(n=24, docs=30, pinned=10) if quick else dict(n=360, docs=40, pinned=90)
     extra = {}
     if c.replay:
         rp = json.load(open(c.replay))
